@@ -113,6 +113,28 @@ def rule_fill_buf(facts):
                 okk = False
                 r.bad("%s|fill_buf-use:%s" % (fn, cal.split("::")[-1]),
                       "the peeked buffer (whose size depends on the reader's fragmentation) flows into %s" % cal, where)
+            # a loop that peeks, uses and consumes the visible fragment runs once per fragment: whatever it does besides handing on the
+            # peeked bytes happens as often as the reader chooses to split the data (seeded C13-i: the dictionary reset inside the
+            # copy loop of an uncompressed chunk).  Every call of a function of this crate inside such a loop must take the fragment.
+            lb_ = set()
+            for h_, blocks_, _ in c.loops():
+                if me in blocks_:
+                    lb_ |= blocks_
+            cons_ = [x for x in b.calls() if x.idx in lb_ and (flow.declared(x.term) or "").endswith("BufRead::consume")
+                     and flow.term_has(tm.of_operand(x.term.args[1]), is_me)]
+            if lb_ and cons_:
+                for x in b.calls():
+                    if x.idx not in lb_ or x.idx == me or x.cleanup:
+                        continue
+                    cal_ = x.term.callee
+                    if cal_ is None or not cal_.target().local:
+                        continue
+                    if any(flow.term_has(tm.of_operand(a_), is_me) for a_ in x.term.args):
+                        continue
+                    okk = False
+                    r.bad("%s|per-fragment:%s" % (fn, (flow.callee(x.term) or "?").split("::")[-1]),
+                          "%s is called inside the loop over the reader's fragments without taking the fragment: it runs once per "
+                          "fragment, so the result depends on how the reader splits the data" % (flow.callee(x.term) or "?"), pat.where(b, x.idx))
             if scanned:
                 # the scan idiom: inside a loop, with an emptiness exit, consuming exactly the scanned length
                 inloop = any(me in blocks for h, blocks, _ in c.loops())
